@@ -349,22 +349,28 @@ def enc_fst(m, R="Float", state=enc_sym):
     }
 
 
-def canon_wfsa(desc):
-    """accumulated weights per key, zero entries dropped, sorted (a Chart is a function with default zero)"""
+def canon_wfsa(desc, R="Float"):
+    """weights accumulated per key with the semiring's addition, zero entries dropped, sorted
+    (a Chart is a function with default zero)"""
     def acc(items, keyf, wf):
         d = {}
         for it in items:
             k = keyf(it)
             w = wf(it)
-            d[k] = (d.get(k, False) or w) if isinstance(w, bool) else d.get(k, 0) + num(w)
+            if isinstance(w, bool):
+                d[k] = d.get(k, False) or w
+            elif R == "MaxTimes":
+                d[k] = max(d.get(k, 0), num(w))
+            else:
+                d[k] = d.get(k, 0) + num(w)
         return sorted((k, v) for k, v in d.items() if v not in (0, False))
     return {"start": acc(desc["start"], lambda e: symkey(e[0]), lambda e: e[1]),
             "stop": acc(desc["stop"], lambda e: symkey(e[0]), lambda e: e[1]),
             "arcs": acc(desc["arcs"], lambda e: symkey(e[:-1]), lambda e: e[-1])}
 
 
-def same_wfsa(a, b, tol=1e-9):
-    ca, cb = canon_wfsa(a), canon_wfsa(b)
+def same_wfsa(a, b, tol=1e-9, R="Float"):
+    ca, cb = canon_wfsa(a, R), canon_wfsa(b, R)
     for part in ("start", "stop", "arcs"):
         da, db = dict(ca[part]), dict(cb[part])
         if set(da) != set(db):
